@@ -1504,7 +1504,11 @@ class CrossSectionGroupManager(interfaces.Interface):
             for b in a:
                 if b.getMicroSuffix() not in blockCollectionsByXsGroup:
                     b2 = copy.deepcopy(b)
-                    missingBlueprintBlocks.append(b2)
+                    # the env group of the copy is refreshed when it is grouped; only keep
+                    # it if the group it ends up in is not one of the core's groups
+                    self._updateEnvironmentGroups([b2])
+                    if b2.getMicroSuffix() not in blockCollectionsByXsGroup:
+                        missingBlueprintBlocks.append(b2)
         return missingBlueprintBlocks
 
     def makeCrossSectionGroups(self):
